@@ -169,7 +169,14 @@ def r04_4(run):
             shapes.append("None")
         elif isinstance(v, ast.IfExp) and isinstance(v.body, ast.Name) and norm(v.orelse) == f"{v.body.id}.base" \
                 and f"{v.body.id}.base is None" in norm(v.test):
-            shapes.append("owner")
+            # a parent whose graph was cleared (creator None) but whose base lingers owns its memory again: the test must say so
+            tnames = {x.id for x in ast.walk(v.test) if isinstance(x, ast.Name)}
+            txt = norm(v.test)
+            for nm in tnames:
+                for dd in reaching_defs(cfg, nm, d):
+                    if dd != ENTRY:
+                        txt += " " + norm(getattr(cfg.stmt[dd], "value", ast.Constant(0)))
+            shapes.append("owner" if f"{v.body.id}._creator is None" in txt else "owner-ignoring-stale-base")
         else:
             shapes.append("?")
     ok = ok and bool(shapes) and set(shapes) <= {"None", "owner"} and "owner" in shapes
@@ -214,14 +221,45 @@ def r04_4(run):
            "a view cannot be re-created faithfully after an in-place update of its base")
 
 
+def r04_5(run):
+    """shape setter: views of the re-shaped tensor are replayed on the un-reshape of it, every other view on its own parent"""
+    fi = anchor_func(run, f"{TENSOR}.shape.setter")
+    cfg = build_cfg(run, fi, switch_assumptions(fi, track=True))
+    un = [s for s in own_nodes(fi.node) if isinstance(s, ast.Assign) and isinstance(s.value, ast.Call) and norm(s.value.func) == "self.reshape"]
+    loops = [n for n in own_nodes(fi.node) if isinstance(n, ast.For) and calls_named(n, "_replay_op")]
+    ok = False
+    detail = "loop replaying the views not found"
+    for lp in loops:
+        nd = norm(lp.target)
+        sel = [s for s in own_nodes(lp) if isinstance(s, ast.Assign) and isinstance(s.value, ast.IfExp)]
+        for s in sel:
+            v = s.value
+            unn = assigned_name(un[0]) if un else None
+            t = norm(v.test).replace(" ", "")
+            good = (t == f"{nd}.parentisnotself" and norm(v.body) == f"{nd}.parent" and norm(v.orelse) == unn) or \
+                   (t == f"{nd}.parentisself" and norm(v.orelse) == f"{nd}.parent" and norm(v.body) == unn)
+            rp = [c for c in calls_named(lp, "_replay_op") if c.args and norm(c.args[0]) == assigned_name(s)]
+            if good and rp:
+                ok = True
+            detail = f"parent selection `{norm(v)[:70]}`"
+    run.ob("R04.5", loc(fi, loops[0] if loops else fi.node), fi.short, "a view is replayed on the un-reshape exactly when its parent is the re-shaped tensor itself", ok,
+           detail if ok else detail + ": views are replayed on a tensor of the wrong shape / the wrong parent")
+    old = [s for s in own_nodes(fi.node) if isinstance(s, ast.Assign) and norm(s.value) == "self.shape" and assigned_name(s)]
+    ok = bool(un) and bool(old) and un[0].value.args and norm(un[0].value.args[0]) == assigned_name(old[0])
+    run.ob("R04.5", loc(fi, un[0] if un else fi.node), fi.short, "the un-reshape restores the shape saved before the assignment", ok,
+           "unshaped = self.reshape(old_shape)" if ok else "views are replayed against a wrong intermediate shape")
+
+
 def check(run):
     run.rule("R04.1", "an op whose forward result may be (a view of) an operand's array resolves can_return_view=True (ownership domain)", floor=80)
     run.rule("R04.2", "in-place spellings use the same Operation as the out-of-place ones, target self, and return self; __setitem__ routes to SetItem", floor=12)
     run.rule("R04.3", "public tensors change only through mirror_tensor (identity-preserving shallow dict copy); tracked _in_place_op returns nothing; "
              "every view is replayed on its updated parent, parents first", floor=7)
+    run.rule("R04.5", "shape setter replays a view on the un-reshape exactly when its parent is the re-shaped tensor", floor=2)
     run.rule("R04.4", "Tensor._op: base is None or the memory owner; the three sharing configurations are recognised; views are registered and record "
              "their replay arguments", floor=5)
     r04_1(run)
     r04_2(run)
     r04_3(run)
     r04_4(run)
+    r04_5(run)
